@@ -103,7 +103,7 @@ def scenarios(tier: str) -> List[Any]:
                         out.append((engine, "incomplete", limit, size, term, "bytes"))
         for mx in (1, 2, 3):
             for n in range(1, mx + 3):
-                for mode in ("seq", "seq_early", "pipe", "h2", "h2c"):
+                for mode in ("seq", "seq_early", "seq_ka", "pipe", "h2", "h2c"):
                     out.append((engine, "keepalive", mx, n, mode, 0))
         for mcs in (1, 2):
             for k in (1, 2, 3):
@@ -117,6 +117,11 @@ def scenarios(tier: str) -> List[Any]:
                     out.append((engine, "recycle", mr, jit, nconn, 0))
                 if jit == 0:
                     out.append((engine, "recycle", mr, jit, 1, "no_trigger"))  # serve() without a shutdown trigger
+                if mr <= 2 and jit <= 1:
+                    # every request on its own connection, taken on through the other protocol paths: an h2c upgrade
+                    # (the upgraded request becomes stream 1) and HTTP/2 over TLS
+                    out.append((engine, "recycle", mr, jit, mr + jit + 2, "h2c"))
+                    out.append((engine, "recycle", mr, jit, mr + jit + 2, "h2"))
     return out
 
 
@@ -183,8 +188,10 @@ def build(params: Any) -> tuple:
                 client.append(("data", 0, h1_request(b"GET", b"/r%d" % i)))
                 client.append(("resp_count", i + 1))
             conn = {"carrier": "h1", "methods": [b"GET"] * n}
+            if mode == "seq_ka":  # the application insists on keep-alive in its own response headers
+                apps = {"http": [OK[0], ("send", {**OK[1][1], "headers": OK[1][1]["headers"] + [(b"connection", b"keep-alive")]}), OK[2]]}
         # sequential mode: each request is sent only once the previous response is complete
-        sc = {**base, "conns": {0: conn}, "apps": apps if mode == "seq_early" else {"http": OK},
+        sc = {**base, "conns": {0: conn}, "apps": apps if mode in ("seq_early", "seq_ka") else {"http": OK},
               "config": {"keep_alive_max_requests": mx, "keep_alive_timeout": 5},
               "sources": [("client", client)], "midflight": False,
               "guards": {"resp_count": _resp_guard, "wait_h2": _wait_h2, "resp_heads": _resp_n_guard, "resp_done": _resp_n_guard}}
@@ -214,20 +221,45 @@ def build(params: Any) -> tuple:
         for i in range(total):
             per[i % nconn].append(i)
         for c, idxs in enumerate(per):
-            evs: list = [("connect", c, {"carrier": "h1", "methods": [b"GET"] * len(idxs)})]
-            for j, i in enumerate(idxs):
-                evs.append(("data", c, h1_request(b"GET", b"/q%d" % i)))
-                evs.append(("conn_resp", c, j + 1))
+            if trig == "h2c":
+                i = idxs[0]
+                up = h1_request(b"GET", b"/q%d" % i, [(b"Connection", b"Upgrade, HTTP2-Settings"), (b"Upgrade", b"h2c"),
+                                                      (b"HTTP2-Settings", b"AAMAAABkAAQAoAAAAAIAAAAA")])
+                evs: list = [("connect", c, {"carrier": "h2c", "methods": [b"GET"]}), ("data", c, up), ("conn_gone_or_status", c)]
+            elif trig == "h2":
+                i = idxs[0]
+                evs = [("connect", c, {"carrier": "h2", "tls": True, "alpn": "h2"}), ("cmd", c, "preface"),
+                       ("cmd", c, "headers", 1, h2_request_headers(b"GET", b"/q%d" % i), True), ("conn_gone_or_status", c)]
+            else:
+                evs = [("connect", c, {"carrier": "h1", "methods": [b"GET"] * len(idxs)})]
+                for j, i in enumerate(idxs):
+                    evs.append(("data", c, h1_request(b"GET", b"/q%d" % i)))
+                    evs.append(("conn_resp", c, j + 1))
             sources.append((f"c{c}", evs))
+        if trig in ("h2c", "h2"):  # one connection after the other (the protocol path is the point, not the interleaving)
+            sources = [("c", [e for _, evs in sources for e in evs])]
         sources.append(("clock", [("tick",)] * 3))
         sc = {"level": "serve", "client_factory": lawless, "trio_rev": True, "randint": True, "no_trigger": trig == "no_trigger",
               "apps": {"lifespan": [("lifespan_loop",)], "http": OK},
               "config": {"max_requests": mr, "max_requests_jitter": jit, "keep_alive_timeout": 50, "graceful_timeout": 3,
                          "shutdown_timeout": 2},
               "sources": sources, "midflight": False,
-              "guards": {"conn_resp": _conn_resp_guard}}
+              "guards": {"conn_resp": _conn_resp_guard, "conn_gone_or_status": _gone_or_status}}
         return engine, sc
     raise ValueError(fam)
+
+
+def _gone_or_status(w: Any, ev: tuple) -> bool:
+    """('conn_gone_or_status', c): connection c has seen a response head (h1 / h2 stream 1), or is gone / was refused."""
+    rec = w.conns.get(ev[1])
+    if rec is None:
+        return False
+    if rec.refused or rec.closed_at is not None:
+        return True
+    cl = rec.client
+    if cl.h2 is not None and cl.h2.streams.get(1) is not None and cl.h2.streams[1]["status"] is not None:
+        return True
+    return cl.h1 is not None and any(r["status"] != 101 for r in cl.h1.responses)
 
 
 def _conn_resp_guard(w: Any, ev: tuple) -> bool:
@@ -309,7 +341,7 @@ def oracle(w: Any, params: Any) -> List[dict]:
         sent = sum(1 for _, e in w.driver.fired if (e[0] == "cmd" and e[2] == "headers") or e[0] == "data")
         if mode != "pipe":
             expect = min(n, allowed)
-            if len(reqs) < min(expect, sent if mode not in ("seq", "seq_early") else n):
+            if len(reqs) < min(expect, sent if mode not in ("seq", "seq_early", "seq_ka") else n):
                 out.append(V("under-limit-refused", tag, f"{len(reqs)} instances, {n} requests, allowed {allowed}"))
         else:
             if len(reqs) < min(n, allowed):
